@@ -47,6 +47,7 @@ RunDef(r) ==
       [] r = "sig2"   -> R(2, "sig",    "sig1",  "std",   "all")
       [] r = "skip3"  -> R(3, "all",    "empty", "quick", "skip")
       [] r = "data"   -> R(1, "data",   "empty", "min",   "all")
+      [] r = "fad"    -> R(3, "fad",    "fad",   "bare",  "all")
       [] r = "sim"    -> R(40, "small", "empty", "quick", "alive")
       \* thorough tier
       [] r = "core3"  -> R(3, "core",   "empty", "std",   "all")
@@ -76,6 +77,7 @@ ConfigsOf(CfgName) ==
              [] CfgName = "quick" -> ConfigsQuick
              [] CfgName = "lock" -> UNION {ConfigsFor(x) : x \in CtxNames}
              [] CfgName = "min"  -> {<<"b", "0", "A">>, <<"w", "S", "A">>, <<"t", "S", "A">>}
+             [] CfgName = "bare" -> {<<"b", "0", "A">>, <<"b", "S", "A">>}
 
 -----------------------------------------------------------------------------
 (* alphabets *)
@@ -123,6 +125,9 @@ AlphaCond == {Op("OP_0"), OpN(1)} \cup Ops({"OP_IF", "OP_NOTIF", "OP_ELSE", "OP_
 \* OP_DATA_1 .. OP_DATA_75, each with data of its length
 AlphaData == {PushEnc(IF len <= 40 THEN Raw([i \in 1..len |-> 5]) ELSE Fill(5, len), "d") : len \in 1..75}
 
+\* FindAndDelete with an empty signature: OP_0 in the script code of a signature check
+AlphaFad == {Op("OP_0"), Push(K1c)} \cup Ops({"OP_DROP", "OP_CHECKSIG", "OP_CHECKMULTISIG"})
+
 \* every opcode byte and every push form: the unit sweep
 AlphaAll == AllOneByte \cup PushForms
 
@@ -144,6 +149,7 @@ AlphaOf(AlphaName) ==
            [] AlphaName = "tiny"  -> AlphaTiny
            [] AlphaName = "cond"  -> AlphaCond
            [] AlphaName = "data"  -> AlphaData
+           [] AlphaName = "fad"   -> AlphaFad
            [] AlphaName = "all"   -> AlphaAll
            [] AlphaName = "sig"   -> AlphaSig
            [] AlphaName = "sigops" -> AlphaSigOps
@@ -181,6 +187,7 @@ MultiStacks ==
               Multi(d, <<E0, SigBy("K2", v)>>, <<K1c, K2c>>),                        \* an empty signature
               Multi(d, <<E0>>, <<K1c>>),
               Multi(d, <<E0>>, <<K1bad>>),                                           \* empty signature, bad key
+              Multi(d, <<E0>>, <<K1u>>),                                             \* empty signature, uncompressed key (segwit)
               Multi(d, <<SigBy("K2", v)>>, <<K1bad, K2c>>),                          \* bad key tried first
               Multi(d, <<SigBy("K1", v)>>, <<K1c, K1bad>>),                          \* bad key never reached
               Multi(d, <<SigBy("K1", v)>>, <<K1u>>),
@@ -217,6 +224,7 @@ InitStacksOf(InitName) ==
                                \cup [1..3 -> {E0, E2}]
                                \cup {<<E1, E2, E3, E16, E17, EM1>>, <<E1, E2, E3, E16>>}
       [] InitName = "lock"  -> Stacks(ElemsLock, 1)
+      [] InitName = "fad"   -> {<<>>, <<E0, E0, E1, K1c, E1>>}
 
 -----------------------------------------------------------------------------
 \* outcome record (without cf)
